@@ -1,3 +1,6 @@
+#[cfg(jubako_verif_loom)]
+use crate::bases::verif_sync::OnceLock;
+#[cfg(not(jubako_verif_loom))]
 use std::sync::OnceLock;
 
 use crate::bases::*;
